@@ -80,6 +80,7 @@ type Link struct {
 	frameIdx    int // S2CFrameWise: first frame of S.OutLog that is not completely delivered
 	frameEnd    int // S2CFrameWise: cumulative size of the frames before frameIdx plus that frame
 	AcceptedAt         time.Time
+	AcceptStep         int // scheduler step of the dial event that created the connection
 	DeliveryLog        []Delivery // cumulative bytes delivered to the client after each s2c event
 	ClientClosedAt     time.Time // when the server side noticed that the client had closed the connection
 	UndeliveredAtClose int       // reply bytes the server still had to deliver at that moment
@@ -366,6 +367,7 @@ func New(seed uint64, cfg Config) *Sim {
 	}
 	s := &Sim{Seed: seed, R: rand.New(rand.NewPCG(seed, 0x9e3779b97f4a7c15)), Cfg: cfg, Net: simnet.NewNet(), Stats: map[string]int{}, Start: time.Now(), downUntil: map[string]time.Time{}}
 	s.W = fakeredis.NewWorld(time.Now)
+	s.Net.StepFn = func() int { return s.Step }
 	s.hash = sha256.New()
 	s.logf("seed %d", seed)
 	return s
@@ -699,7 +701,7 @@ func (s *Sim) decideDial(d *simnet.Dial) {
 		if c == nil {
 			return
 		}
-		l := &Link{ID: c.ID, C: c, S: s.W.Accept(d.Addr, c.ID), CutAfter: -1, AcceptedAt: time.Now()}
+		l := &Link{ID: c.ID, C: c, S: s.W.Accept(d.Addr, c.ID), CutAfter: -1, AcceptedAt: time.Now(), AcceptStep: s.Step}
 		s.Links = append(s.Links, l)
 		s.logf("  accept c%d -> %s", c.ID, d.Addr)
 		if s.OnAccept != nil {
